@@ -59,15 +59,17 @@ package drpcstream
 // Put hands data to the consumer and does not return while the slot is set or held: the lent reader
 // buffer is not reused before the consumer is done with it (or the stream is closed).
 //@ func (*packetBuffer).Put
-//@   props C03 C01 C04
+//@   props C03 C01 C04 C05
 //@   loop 1 invariant [inv] pbInv(pb) && pb == pb0 && data == data0
 //@   loop 2 invariant [inv] pbInv(pb) && pb == pb0 && data == data0
 //@   check [drained] pb.err != nil || (!pb.set && !pb.held)
+//@   site (*Cond).Wait#1 assert [C04,C05.no-wait-when-closed] pb.err == nil
 
 //@ func (*packetBuffer).Get
-//@   props C03 C01 C04
+//@   props C03 C01 C04 C05
 //@   loop 1 invariant [inv] pbInv(pb) && pb == pb0
 //@   check [lent] result1 == nil ==> pb.set && pb.held && result0 == pb.data
+//@   site (*Cond).Wait assert [C04,C05.no-wait-when-closed] pb.err == nil
 //@   check [err]  result1 != nil ==> result1 == pb.err && result0 == nil
 //@   ensures [closed] result1 != nil ==> pb.err != nil && result1 == pb.err
 
